@@ -38,11 +38,17 @@ package dedupebuffer
 //@   property C25
 //@   option safety off
 //@   ensures (*d).liveKeysNotSeenSinceReconnect == nil
+//@ ghost c25Asked bool
 //@ func (*DedupeBuffer).queueUpdate
 //@   property C25
 //@   option safety off
 //@   requires d != nil
 //@   ghost at call Contains#1: check arg0 == old(d.liveResourceKeys) && arg1 == key ; c25Live = res
+//@ -- a pending update is dropped together with the deletion that overtakes it ONLY if downstream never got the
+//@ -- key (asked of the live-key set, for this key); otherwise the deletion must travel downstream
+//@   requires !c25Asked
+//@   ghost at call Contains: c25Asked = c25Asked || (arg0 == old(d.liveResourceKeys) && arg1 == key) ; c25Live = res
+//@   ghost at call List).Remove: check u.KVPair.Value == nil && c25Asked && !c25Live
 //@   ghost at call PushBack: check cast(arg1, updateWithKey).key == key ; check u.KVPair.Value != nil ==> cast(arg1, updateWithKey).update.UpdateType == (c25Live ? api.UpdateTypeKVUpdated : api.UpdateTypeKVNew) ; check cast(arg1, updateWithKey).update.KVPair.Value == u.KVPair.Value
 //@ func (*DedupeBuffer).pullNextBatch
 //@   property C25
